@@ -158,6 +158,12 @@ def normalize_slice(idx, dim):
             if stop is not None and start is not None and stop < start:
                 stop = start
         elif step < 0:
+            if start < 0:
+                # ``slice.indices`` clips a start before the beginning to -1
+                # (x[-9::-1] on 4 elements selects nothing).  Read as an index
+                # again, -1 would mean the last element: normalize to an
+                # explicitly empty slice instead.
+                return slice(0, 0, 1)
             if start >= dim - 1:
                 start = None
             if stop < 0:
